@@ -26,6 +26,6 @@ NEXT PriceNext
 SYMMETRY Sym
 VIEW View
 CONSTRAINT Bound
-INVARIANTS Inv ErrOnlyQuorum0
+INVARIANTS Inv NoEndBlockError
 PROPERTIES MCPriceRule MCPriceOnlyAtEndBlock MCVPriceRule MCStatusStable MCDeactivationRule
 CHECK_DEADLOCK FALSE
